@@ -49,7 +49,9 @@ type Stmt struct {
 	Args          []interface{} // MySQL: arguments of a prepared statement (int64, string, []byte, nil)
 	NoParse       bool          // PostgreSQL: execute the statement prepared earlier under Name (no Parse message)
 	IdleBefore    time.Duration // the client stays silent for this long before sending the statement
-	Tag           string        // harness bookkeeping
+	Reexec        bool          // PostgreSQL: the (named) statement is bound and executed a second time without a new Parse
+	rerun         bool
+	Tag           string // harness bookkeeping
 }
 
 // StmtResult is what the client saw for one statement.
@@ -330,6 +332,17 @@ func (pw *PgWorld) RunSession(clientID string, script []Stmt) *SessionRun {
 		for i := range script {
 			if i%n == n-1 && script[i].IdleBefore == 0 {
 				script[i].IdleBefore = 61*time.Second + time.Duration(i)*time.Second
+			}
+		}
+	}
+	if pw.W.Plan.Sw("pgreexec") == 1 && !pw.mysql {
+		// drivers that keep prepared statements (pgx, JDBC after a few executions) parse once under a name and
+		// then only bind and execute: every prepared SELECT with parameters is executed a second time that way
+		script = append([]Stmt{}, script...)
+		for i := range script {
+			st := &script[i]
+			if st.Extended && len(st.Params) > 0 && st.Name == "" && !st.NoParse && strings.HasPrefix(strings.ToUpper(strings.TrimSpace(st.SQL)), "SELECT") {
+				st.Name, st.Reexec = fmt.Sprintf("rx%d", i), true
 			}
 		}
 	}
@@ -654,9 +667,16 @@ func runPgClient(conn net.Conn, script []Stmt, results []StmtResult) error {
 			return fmt.Errorf("startup error: %s", e.Message)
 		}
 	}
-	for i, st := range script {
+	for i := 0; i < len(script); i++ {
+		st := script[i]
 		res := &results[i]
-		clientIdles(st.IdleBefore)
+		if st.rerun {
+			// second execution of the named statement: Bind and Execute only, its answer is the result
+			*res = StmtResult{}
+			st.NoParse = true
+		} else {
+			clientIdles(st.IdleBefore)
+		}
 		if st.Extended {
 			if !st.NoParse {
 				fe.Send(&pgproto3.Parse{Name: st.Name, Query: st.SQL, ParameterOIDs: st.ParamOIDs})
@@ -709,6 +729,10 @@ func runPgClient(conn net.Conn, script []Stmt, results []StmtResult) error {
 			if res.Ready {
 				break
 			}
+		}
+		if st.Reexec && !st.rerun && res.Err == "" {
+			script[i].rerun = true
+			i--
 		}
 	}
 	fe.Send(&pgproto3.Terminate{})
